@@ -36,7 +36,7 @@ HAck0   == ev.e = "ddp" /\ Do([e |-> "tp", sub |-> 1, ep |-> 0, seq |-> 1, nump 
 HStatus0 == "ctl" \in Feat /\ Do([e |-> "tp", sub |-> 4, ep |-> 0, seq |-> 0, nump |-> 0, rty |-> 0])
 HTpIn   == "in" \in Feat /\ \E s \in {seqn, (seqn + 1) % 32}, n \in {0, 1}, r \in {0, 1} :
               Do([e |-> "tp", sub |-> 1, ep |-> EpIn, seq |-> s, nump |-> n, rty |-> r])
-HWord   == "in" \in Feat /\ \E l \in BOOLEAN : Do([e |-> "w", b |-> <<7 + Len(gAcc)>>, last |-> l])
+HWord   == "in" \in Feat /\ \E l \in BOOLEAN, sm \in BOOLEAN : Do([e |-> "w", b |-> <<7 + Len(gAcc)>>, last |-> l, same |-> sm])
 HItp    == "itp" \in Feat /\ \E c \in {1, 2} : Do([e |-> "itp", cnt |-> c, delta |-> 0])
 
 (* ---- abstract device ---- *)
@@ -45,7 +45,7 @@ DReq    == \E p \in EPs :
               /\ First(owed[p], IsTp) # 0
               /\ \A i \in 1..Len(reqq) : reqq[i].ep # p
               /\ LET x == owed[p][First(owed[p], IsTp)] IN
-                 Do([e |-> "req", k |-> x.k, ep |-> p, seq |-> IF x.seq = ANY THEN 1 ELSE x.seq,
+                 Do([e |-> "req", k |-> IF x.k = "nrdy_or_dp" THEN "nrdy" ELSE x.k, ep |-> p, seq |-> IF x.seq = ANY THEN 1 ELSE x.seq,
                      rty |-> IF x.rty = ANY THEN 0 ELSE x.rty])
 DTp     == TRUE /\ \E p \in EPs, sub \in {1, 2, 3, 5}, s \in {0, 1}, r \in {0, 1}, a \in Addrs, x \in {0, 1} :
               Do([e |-> "dhp", ok |-> TRUE, type |-> 4, sub |-> sub, ep |-> p, seq |-> s, rty |-> r, addr |-> a,
